@@ -24,23 +24,28 @@ type pathState struct {
 	ndec   int
 	decs   []Decision // decisions taken on this path
 
-	vars      []string // nondet variable names created on this path (in order)
-	varSorts  map[string]Sort
-	varCount  map[string]int
-	reached   map[string]bool
-	asserts   map[string]int
-	stubCalls map[string]int
-	goSites   map[string]int
-	preempts  int
-	locks     map[string]*lockState
-	onces     map[string]int
-	wgs       map[string]int
-	observes  []string
-	unknown   bool
-	now       *Term
-	ghost     map[string]Value
-	excepts   map[string]*Term
-	notes     []string
+	vars        []string // nondet variable names created on this path (in order)
+	varSorts    map[string]Sort
+	varCount    map[string]int
+	reached     map[string]bool
+	asserts     map[string]int
+	stubCalls   map[string]int
+	goSites     map[string]int
+	preempts    int
+	locks       map[string]*lockState
+	onces       map[string]int
+	wgs         map[string]int
+	observes    []string
+	unknown     bool
+	now         *Term
+	ghost       map[string]Value
+	excepts     map[string]*Term
+	notes       []string
+	model       map[string]uint64
+	noModel     bool
+	pendAsserts []pendingAssert
+	pc          []*Term
+	startModel  map[string]uint64
 }
 
 func newPathState(prefix []Decision, kept int) *pathState {
@@ -66,50 +71,57 @@ type Violation struct {
 // Explorer coordinates the DFS over decision prefixes for one harness job.
 type Explorer struct {
 	mu       sync.Mutex
-	queue    [][]Decision // global work queue (prefixes)
+	queue    []workItem // global work queue (prefixes)
 	idle     int
 	nworkers int
 	done     bool
 
 	// results
-	paths        int64
-	pathKinds    map[string]int64
-	decisions    int64
-	violations   []*Violation
-	inconclusive []string
-	reached      map[string]int64
-	asserts      map[string]int64
-	stubCalls    map[string]int64
-	goSites      map[string]int64
-	funcs        map[string]int64
-	samples      []map[string]interface{}
-	queries      int
-	definite     int
-	unknowns     int
-	solveTime    time.Duration
-	steps        int64
-	maxViol      int
-	concretis    map[string]int64
-	notes        map[string]int64
-	stop         bool
-	cond         *sync.Cond
+	paths         int64
+	pathKinds     map[string]int64
+	decisions     int64
+	violations    []*Violation
+	inconclusive  []string
+	reached       map[string]int64
+	asserts       map[string]int64
+	stubCalls     map[string]int64
+	goSites       map[string]int64
+	funcs         map[string]int64
+	samples       []map[string]interface{}
+	queries       int
+	definite      int
+	unknowns      int
+	solveTime     time.Duration
+	steps         int64
+	maxViol       int
+	dupViolations int64
+	cacheHits     int64
+	concretis     map[string]int64
+	notes         map[string]int64
+	stop          bool
+	cond          *sync.Cond
 }
 
 func NewExplorer(n int) *Explorer {
 	ex := &Explorer{nworkers: n, pathKinds: map[string]int64{}, reached: map[string]int64{}, asserts: map[string]int64{},
 		stubCalls: map[string]int64{}, goSites: map[string]int64{}, funcs: map[string]int64{}, maxViol: 8, concretis: map[string]int64{}, notes: map[string]int64{}}
 	ex.cond = sync.NewCond(&ex.mu)
-	ex.queue = append(ex.queue, nil) // the root prefix
+	ex.queue = append(ex.queue, workItem{}) // the root prefix
 	return ex
 }
 
 // take blocks until a prefix is available or exploration is finished.
-func (ex *Explorer) take() ([]Decision, bool) {
+type workItem struct {
+	prefix []Decision
+	model  map[string]uint64 // satisfies the path condition of prefix (nil: unknown)
+}
+
+func (ex *Explorer) take() (workItem, bool) {
 	ex.mu.Lock()
 	defer ex.mu.Unlock()
 	for {
 		if ex.stop {
-			return nil, false
+			return workItem{}, false
 		}
 		if n := len(ex.queue); n > 0 {
 			p := ex.queue[n-1]
@@ -120,13 +132,13 @@ func (ex *Explorer) take() ([]Decision, bool) {
 		if ex.idle == ex.nworkers {
 			ex.done = true
 			ex.cond.Broadcast()
-			return nil, false
+			return workItem{}, false
 		}
 		ex.cond.Wait()
 		ex.idle--
 		if ex.done {
 			ex.idle++
-			return nil, false
+			return workItem{}, false
 		}
 	}
 }
@@ -137,7 +149,7 @@ func (ex *Explorer) wantsWork() bool {
 	return len(ex.queue) < ex.nworkers && ex.nworkers > 1
 }
 
-func (ex *Explorer) donate(p []Decision) {
+func (ex *Explorer) donate(p workItem) {
 	ex.mu.Lock()
 	ex.queue = append(ex.queue, p)
 	ex.mu.Unlock()
@@ -165,25 +177,45 @@ func (m *Machine) decideV(kind string, alts []*Term, payload int64) int {
 			m.solver.Push()
 			m.solver.Assert(alts[d.Choice])
 		}
+		ps.addPC(alts[d.Choice])
+		ps.model = nil
+		if i == len(ps.prefix)-1 {
+			ps.model = ps.startModel
+		}
 		ps.ndec++
 		ps.decs = append(ps.decs, d)
 		return d.Choice
 	}
 	// new decision: find feasible alternatives
 	var feas []int
+	altModels := map[int]map[string]uint64{}
 	allTrue := true
 	for _, a := range alts {
 		if !a.IsTrue() {
 			allTrue = false
 		}
 	}
+	modelAlt := -1
 	if allTrue {
 		for j := range alts {
 			feas = append(feas, j)
 		}
 	} else {
+		// the alternative satisfied by the current model is feasible without a query
+		if m.haveModel() {
+			for j, a := range alts {
+				if m.modelTrue(a) {
+					modelAlt = j
+					break
+				}
+			}
+		}
 		for j, a := range alts {
 			if a.IsFalse() {
+				continue
+			}
+			if j == modelAlt {
+				feas = append(feas, j)
 				continue
 			}
 			if j == len(alts)-1 && len(feas) == 0 && kindExhaustive(kind) {
@@ -191,10 +223,11 @@ func (m *Machine) decideV(kind string, alts []*Term, payload int64) int {
 				feas = append(feas, j)
 				break
 			}
-			r := m.solver.CheckWith(a)
+			r, sm := m.query(a)
 			switch r {
 			case Sat:
 				feas = append(feas, j)
+				altModels[j] = sm
 			case Unknown:
 				ps.unknown = true
 				m.ex.noteInconclusive(fmt.Sprintf("solver unknown on %s alternative (%s)%s", kind, m.solver.lastErr, m.where()))
@@ -206,18 +239,74 @@ func (m *Machine) decideV(kind string, alts []*Term, payload int64) int {
 		panic(pathEnd{"inconclusive", "no feasible alternative at decision " + kind + " (path condition unsat?)" + m.where()})
 	}
 	choice := feas[0]
+	if modelAlt >= 0 {
+		choice = modelAlt // follow the model: it stays valid
+	}
 	base := append([]Decision(nil), ps.decs...)
 	// pending alternatives in reverse so that the lowest index is explored next
-	for k := len(feas) - 1; k >= 1; k-- {
+	for k := len(feas) - 1; k >= 0; k-- {
+		if feas[k] == choice {
+			continue
+		}
 		p := append(append([]Decision(nil), base...), Decision{Kind: kind, Choice: feas[k], NAlts: len(alts), Val: payload})
-		m.pending = append(m.pending, p)
+		var pm map[string]uint64
+		if allTrue {
+			pm = ps.model
+		} else {
+			pm = mergeModel(ps.model, altModels[feas[k]])
+		}
+		m.pending = append(m.pending, workItem{p, pm})
+	}
+	if modelAlt < 0 && !allTrue {
+		ps.model = mergeModel(ps.model, altModels[choice])
 	}
 	d := Decision{Kind: kind, Choice: choice, NAlts: len(alts), Val: payload}
 	m.solver.Push()
 	m.solver.Assert(alts[choice])
+	ps.addPC(alts[choice])
 	ps.ndec++
 	ps.decs = append(ps.decs, d)
 	return choice
+}
+
+// haveModel makes sure ps.model satisfies the current path condition (one
+// check-sat + get-value when it has to be recomputed).
+func (m *Machine) haveModel() bool {
+	ps := m.ps
+	if ps.model != nil {
+		return true
+	}
+	if ps.noModel || !ps.live() {
+		return false
+	}
+	if len(ps.vars) == 0 {
+		ps.model = map[string]uint64{}
+		return true
+	}
+	if m.solver.Check() != Sat {
+		ps.noModel = true
+		return false
+	}
+	names := ps.vars
+	sorts := make([]Sort, len(names))
+	for i, n := range names {
+		sorts[i] = ps.varSorts[n]
+	}
+	vals, err := m.solver.Values(names, sorts)
+	if err != nil {
+		ps.noModel = true
+		return false
+	}
+	ps.model = vals
+	return true
+}
+
+func (m *Machine) modelTrue(t *Term) bool {
+	if t.IsConst() {
+		return t.c == 1
+	}
+	v, ok := EvalTerm(t, m.ps.model, map[*Term]uint64{})
+	return ok && v == 1
 }
 
 func kindExhaustive(kind string) bool {
@@ -256,15 +345,23 @@ func (m *Machine) concretizeInt(t *Term, what string, maxN int) int64 {
 		if i < len(ps.prefix) {
 			v = ps.prefix[i].Val
 		} else {
-			r := m.solver.Check()
-			if r != Sat {
-				panic(pathEnd{"inconclusive", "concretisation: path condition not sat (" + r.String() + ")" + m.where()})
+			got := false
+			if m.haveModel() {
+				if u, ok := EvalTerm(t, ps.model, map[*Term]uint64{}); ok {
+					v, got = sext(u, t.sort.W), true
+				}
 			}
-			u, err := m.solver.TermValue(t)
-			if err != nil {
-				panic(pathEnd{"inconclusive", "concretisation: " + err.Error()})
+			if !got {
+				r := m.solver.Check()
+				if r != Sat {
+					panic(pathEnd{"inconclusive", "concretisation: path condition not sat (" + r.String() + ")" + m.where()})
+				}
+				u, err := m.solver.TermValue(t)
+				if err != nil {
+					panic(pathEnd{"inconclusive", "concretisation: " + err.Error()})
+				}
+				v = sext(u, t.sort.W)
 			}
-			v = sext(u, t.sort.W)
 		}
 		eq := Eq(t, BVC(t.sort.W, uint64(v)))
 		ch := m.decideV("conc:"+what, []*Term{eq, Not(eq)}, v)
@@ -279,13 +376,24 @@ func (m *Machine) assume(c *Term) {
 	if c.IsTrue() {
 		return
 	}
+	if !m.ps.live() {
+		if c.IsFalse() {
+			panic(pathEnd{"assume-infeasible", ""})
+		}
+		m.ps.addPC(c)
+		return
+	}
+	// assumptions are not retroactive: assertions made so far are decided first
+	m.flushAsserts()
 	if c.IsFalse() {
 		panic(pathEnd{"assume-infeasible", ""})
 	}
-	if !m.ps.live() {
+	if m.haveModel() && m.modelTrue(c) {
+		m.solver.Assert(c)
+		m.ps.addPC(c)
 		return
 	}
-	r := m.solver.CheckWith(c)
+	r, sm := m.query(c)
 	switch r {
 	case Unsat:
 		panic(pathEnd{"assume-infeasible", ""})
@@ -294,39 +402,73 @@ func (m *Machine) assume(c *Term) {
 		m.ex.noteInconclusive("solver unknown on assume (" + m.solver.lastErr + ")" + m.where())
 	}
 	m.solver.Assert(c)
+	m.ps.addPC(c)
+	m.ps.model = mergeModel(m.ps.model, sm)
 }
 
-// assertProp checks a property assertion on the current path.
+type pendingAssert struct {
+	label string
+	bad   *Term
+	where string
+}
+
+// assertProp records a property assertion; assertions are decided in one query
+// when the path ends (or before the next assumption).
 func (m *Machine) assertProp(c *Term, label string) {
 	m.ps.asserts[label]++
-	if c.IsTrue() {
+	if c.IsTrue() || !m.ps.live() {
 		return
 	}
-	if !m.ps.live() {
-		// already checked on an earlier path sharing this prefix
-		if c.IsFalse() {
-			panic(pathEnd{"assume-infeasible", ""})
+	m.ps.pendAsserts = append(m.ps.pendAsserts, pendingAssert{label, Not(c), m.where()})
+	if c.IsFalse() {
+		m.flushAsserts()
+	}
+}
+
+func (m *Machine) flushAsserts() {
+	ps := m.ps
+	if len(ps.pendAsserts) == 0 {
+		return
+	}
+	pend := ps.pendAsserts
+	ps.pendAsserts = nil
+	reported := map[string]bool{}
+	for i := range pend {
+		p := &pend[i]
+		if reported[p.label] {
+			continue
 		}
-		return
+		// each assertion is decided on its own slice of the path condition (cache friendly)
+		r := Sat
+		if !p.bad.IsTrue() {
+			if m.haveModel() && m.modelTrue(p.bad) {
+				r = Sat
+			} else {
+				r, _ = m.query(p.bad)
+			}
+		}
+		switch r {
+		case Unsat:
+			continue
+		case Unknown:
+			ps.unknown = true
+			m.ex.noteInconclusive("solver unknown on assertion " + p.label + " (" + m.solver.lastErr + ")")
+			continue
+		}
+		reported[p.label] = true
+		m.reportViolationAt("assert", p.label, "assertion "+p.label+" can fail", p.bad, p.where)
+		if m.ex.stopped() {
+			return
+		}
 	}
-	bad := Not(c)
-	r := Sat
-	if !bad.IsTrue() {
-		r = m.solver.CheckWith(bad)
-	}
-	switch r {
-	case Sat:
-		m.reportViolation("assert", label, "assertion "+label+" can fail", bad)
-	case Unknown:
-		m.ps.unknown = true
-		m.ex.noteInconclusive("solver unknown on assertion " + label + " (" + m.solver.lastErr + ")")
-	}
-	// continue under the assumption that the assertion held
-	m.assume(c)
 }
 
 func (m *Machine) reportViolation(kind, label, msg string, extra *Term) {
-	v := &Violation{Label: label, Kind: kind, Msg: msg, Harness: m.cfg.Name, Decisions: append([]Decision(nil), m.ps.decs...), Where: m.where()}
+	m.reportViolationAt(kind, label, msg, extra, m.where())
+}
+
+func (m *Machine) reportViolationAt(kind, label, msg string, extra *Term, where string) {
+	v := &Violation{Label: label, Kind: kind, Msg: msg, Harness: m.cfg.Name, Decisions: append([]Decision(nil), m.ps.decs...), Where: where}
 	// model
 	if extra != nil && !extra.IsTrue() {
 		m.solver.Push()
@@ -362,6 +504,12 @@ func (m *Machine) reportViolation(kind, label, msg string, extra *Term) {
 func (ex *Explorer) addViolation(v *Violation) {
 	ex.mu.Lock()
 	defer ex.mu.Unlock()
+	for _, o := range ex.violations {
+		if o.Label == v.Label && o.Kind == v.Kind && o.Except == v.Except {
+			ex.dupViolations++
+			return
+		}
+	}
 	ex.violations = append(ex.violations, v)
 	if len(ex.violations) >= ex.maxViol {
 		ex.stop = true
@@ -394,17 +542,18 @@ type Worker struct {
 func (m *Machine) exploreWorker(ex *Explorer, entry *ssa.Function) {
 	m.ex = ex
 	for {
-		prefix, ok := ex.take()
+		item, ok := ex.take()
 		if !ok {
 			return
 		}
+		prefix, startModel := item.prefix, item.model
 		// fresh job: reset solver stack to base
 		m.solver.Pop(m.solver.level)
 		m.solver.Push() // job base level
 		m.pending = m.pending[:0]
 		kept := -1
 		for {
-			m.runPath(entry, prefix, kept)
+			m.runPath(entry, prefix, kept, startModel)
 			if ex.stopped() {
 				return
 			}
@@ -417,7 +566,7 @@ func (m *Machine) exploreWorker(ex *Explorer, entry *ssa.Function) {
 			if n == 0 {
 				break
 			}
-			prefix = m.pending[n-1]
+			prefix, startModel = m.pending[n-1].prefix, m.pending[n-1].model
 			m.pending = m.pending[:n-1]
 			kept = len(prefix) - 1
 			// solver levels: 1 (job base) + decisions
@@ -436,8 +585,9 @@ func (ex *Explorer) stopped() bool {
 }
 
 // runPath executes the harness once following prefix.
-func (m *Machine) runPath(entry *ssa.Function, prefix []Decision, kept int) {
+func (m *Machine) runPath(entry *ssa.Function, prefix []Decision, kept int, startModel map[string]uint64) {
 	m.ps = newPathState(prefix, kept)
+	m.ps.startModel = startModel
 	m.epoch++
 	m.threads = m.threads[:0]
 	m.steps = 0
@@ -467,6 +617,16 @@ func (m *Machine) runPath(entry *ssa.Function, prefix []Decision, kept int) {
 		if m.threads[0].state != tsDone {
 			panic(pathEnd{"deadlock", "main thread blocked forever: " + m.threads[0].waitOn + m.whereThread(m.threads[0])})
 		}
+	}()
+	func() {
+		defer func() {
+			if r := recover(); r != nil {
+				if _, ok := r.(pathEnd); !ok {
+					panic(r)
+				}
+			}
+		}()
+		m.flushAsserts()
 	}()
 	switch kind {
 	case "crash":
